@@ -241,7 +241,73 @@ var templates = []tmpl{
 
 var goodTemplates, trickyTemplates []int
 
+// ---- look-alikes derived from the configured root itself ---------------------------------------------
+// A root's inner dots are the only thing that separates "sso.example.com" from "sso-example.com":
+// every dot position of the root (chosen by the marker) is replaced or deleted, bare and with a
+// legitimate-looking label in front.
+
+func markerPick(m string, n int) int {
+	h := 0
+	for i := 0; i < len(m); i++ {
+		h = h*31 + int(m[i])
+	}
+	if h < 0 {
+		h = -h
+	}
+	return h % n
+}
+
+func replaceRootDot(root, m, rep string) string {
+	var idx []int
+	for i := 0; i < len(root); i++ {
+		if root[i] == '.' {
+			idx = append(idx, i)
+		}
+	}
+	if len(idx) == 0 {
+		return root + rep + "x"
+	}
+	k := idx[markerPick(m, len(idx))]
+	return root[:k] + rep + root[k+1:]
+}
+
+const regexMeta = "+*?()|[]{}^$\\"
+
+// metaVariant rewrites the first regexp metacharacter of the root the way an unquoted pattern would
+// read it: how=0 drops it, 1 repeats the character before it, 2 drops it together with that character.
+func metaVariant(root string, how int) string {
+	k := strings.IndexAny(root, regexMeta)
+	if k <= 0 {
+		return replaceRootDot(root, "m", "x")
+	}
+	switch how {
+	case 0:
+		return root[:k] + root[k+1:]
+	case 1:
+		return root[:k] + root[k-1:k] + root[k+1:]
+	}
+	return root[:k-1] + root[k+1:]
+}
+
 func init() {
+	reps := []struct{ name, rep string }{
+		{"dash", "-"}, {"underscore", "_"}, {"x", "x"}, {"zero", "0"}, {"encoded-slash", "%2F"}, {"encoded-dot", "%2e"},
+		{"ideographic-stop", "\u3002"}, {"fullwidth-dot", "\uff0e"}, {"deleted", ""},
+	}
+	for _, rp := range reps {
+		rp := rp
+		templates = append(templates,
+			tmpl{"root-dot-" + rp.name, "root-dot-replaced", func(c tctx) string { return "https://" + replaceRootDot(c.root, c.m, rp.rep) + "/" + c.m }},
+			tmpl{"root-dot-" + rp.name + "-sub", "root-dot-replaced", func(c tctx) string { return "https://app." + replaceRootDot(c.root, c.m, rp.rep) + "/" + c.m }},
+		)
+	}
+	for how, name := range []string{"dropped", "repeat-previous", "previous-dropped"} {
+		how := how
+		templates = append(templates,
+			tmpl{"root-meta-" + name, "root-metachar", func(c tctx) string { return "https://" + metaVariant(c.root, how) + "/" + c.m }},
+			tmpl{"root-meta-" + name + "-sub", "root-metachar", func(c tctx) string { return "https://app." + metaVariant(c.root, how) + "/" + c.m }},
+		)
+	}
 	for i, t := range templates {
 		if t.family == "good" {
 			goodTemplates = append(goodTemplates, i)
